@@ -832,8 +832,16 @@ func vcDecodeBlock(ps *types.PartSet) (*types.Block, error) {
 
 // ---------------------------------------------------------------- random walker
 
-func (net *vcNet) enabledSteps(rng *rand.Rand) []vcStep {
-	steps := []vcStep{}
+// weighted candidates: progress (own queues, messages the receiver does not hold yet, blocks it waits
+// for) is favoured over noise (repeats, unwanted blocks, Byzantine messages) so that walks lock, change
+// rounds and decide; every choice is still possible
+type vcCand struct {
+	st vcStep
+	w  int
+}
+
+func (net *vcNet) candidates(rng *rand.Rand) []vcCand {
+	cands := []vcCand{}
 	blocks := []string{}
 	for name := range net.blocks {
 		blocks = append(blocks, name)
@@ -847,49 +855,105 @@ func (net *vcNet) enabledSteps(rng *rand.Rand) []vcStep {
 			continue
 		}
 		if len(n.inq) > 0 {
-			steps = append(steps, vcStep{Name: "ProcessInternal", N: nn})
-			steps = append(steps, vcStep{Name: "ProcessInternal", N: nn}) // favour progress
+			cands = append(cands, vcCand{vcStep{Name: "ProcessInternal", N: nn}, 40})
 		}
 		if cs.Height != 1 {
 			continue
 		}
 		switch {
 		case cs.Step == cstypes.RoundStepNewHeight:
-			steps = append(steps, vcStep{Name: "Timeout", N: nn, K: "NewHeight"})
+			cands = append(cands, vcCand{vcStep{Name: "Timeout", N: nn, K: "NewHeight"}, 20})
 		case cs.Step == cstypes.RoundStepPropose:
-			steps = append(steps, vcStep{Name: "Timeout", N: nn, K: "Propose"})
+			cands = append(cands, vcCand{vcStep{Name: "Timeout", N: nn, K: "Propose"}, 3})
 		case cs.Step == cstypes.RoundStepPrevoteWait:
-			steps = append(steps, vcStep{Name: "Timeout", N: nn, K: "PrevoteWait"})
+			cands = append(cands, vcCand{vcStep{Name: "Timeout", N: nn, K: "PrevoteWait"}, 4})
 		}
 		if cs.TriggeredTimeoutPrecommit && cs.Step < cstypes.RoundStepCommit && int(cs.Round) < net.maxRound {
-			steps = append(steps, vcStep{Name: "Timeout", N: nn, K: "PrecommitWait"})
+			cands = append(cands, vcCand{vcStep{Name: "Timeout", N: nn, K: "PrecommitWait"}, 4})
 		}
 		for _, k := range net.soupKeys {
 			it := net.soup[k]
-			if it.m.Src != nn {
-				steps = append(steps, vcStep{Name: "Deliver", N: nn, M: it.m})
+			if it.m.Src == nn {
+				continue
 			}
+			w := 1
+			switch it.m.T {
+			case "proposal":
+				if cs.Proposal == nil && int(cs.Round) == it.m.R {
+					w = 30
+				}
+			case "prevote", "precommit":
+				vs := cs.Votes.Prevotes(int32(it.m.R))
+				if it.m.T == "precommit" {
+					vs = cs.Votes.Precommits(int32(it.m.R))
+				}
+				if vs == nil || vs.GetByIndex(net.index[it.m.Src]) == nil {
+					w = 12
+				}
+			}
+			cands = append(cands, vcCand{vcStep{Name: "Deliver", N: nn, M: it.m}, w})
+		}
+		want := ""
+		if cs.ProposalBlockParts != nil && cs.ProposalBlock == nil {
+			want = net.nameOfPSH(cs.ProposalBlockParts.Header())
 		}
 		for _, name := range blocks {
-			steps = append(steps, vcStep{Name: "Deliver", N: nn, M: vcMsg{T: "block", Src: "-", R: -1, V: name, Pol: -2}})
+			w := 1
+			if name == want {
+				w = 30
+			}
+			cands = append(cands, vcCand{vcStep{Name: "Deliver", N: nn, M: vcMsg{T: "block", Src: "-", R: -1, V: name, Pol: -2}}, w})
 		}
-		// a few Byzantine messages
 		for _, b := range net.names {
 			if !net.byz[b] {
 				continue
 			}
 			for k := 0; k < 3; k++ {
-				r := rng.Intn(net.maxRound + 1)
+				r := int(cs.Round) + rng.Intn(3) - 1
+				if r < 0 || r > net.maxRound || rng.Intn(5) == 0 {
+					r = rng.Intn(net.maxRound + 1)
+				}
 				t := []string{"prevote", "precommit"}[rng.Intn(2)]
-				steps = append(steps, vcStep{Name: "Deliver", N: nn, M: vcMsg{T: t, Src: b, R: r, V: vals[rng.Intn(len(vals))], Pol: -2}})
+				cands = append(cands, vcCand{vcStep{Name: "Deliver", N: nn, M: vcMsg{T: t, Src: b, R: r, V: vals[rng.Intn(len(vals))], Pol: -2}}, 3})
 			}
-			r := rng.Intn(net.maxRound + 1)
-			if net.propSeq[r] == b {
-				steps = append(steps, vcStep{Name: "Deliver", N: nn, M: vcMsg{T: "proposal", Src: b, R: r, V: blocks[rng.Intn(len(blocks))], Pol: rng.Intn(r+1) - 1}})
+			r := int(cs.Round)
+			if rng.Intn(3) == 0 {
+				r = rng.Intn(net.maxRound + 1)
+			}
+			if r < len(net.propSeq) && net.propSeq[r] == b {
+				cands = append(cands, vcCand{vcStep{Name: "Deliver", N: nn, M: vcMsg{T: "proposal", Src: b, R: r, V: blocks[rng.Intn(len(blocks))], Pol: rng.Intn(r+1) - 1}}, 6})
 			}
 		}
 	}
-	return steps
+	return cands
+}
+
+func (net *vcNet) enabledSteps(rng *rand.Rand) []vcStep {
+	cands := net.candidates(rng)
+	if len(cands) == 0 {
+		return nil
+	}
+	// a weighted draw, returned as a one-element list (callers pick uniformly from the result);
+	// occasionally (1 in 8) the draw is uniform so that low-weight choices keep their share
+	out := []vcStep{}
+	if rng.Intn(8) == 0 {
+		for _, c := range cands {
+			out = append(out, c.st)
+		}
+		return out
+	}
+	total := 0
+	for _, c := range cands {
+		total += c.w
+	}
+	x := rng.Intn(total)
+	for _, c := range cands {
+		if x < c.w {
+			return []vcStep{c.st}
+		}
+		x -= c.w
+	}
+	return []vcStep{cands[len(cands)-1].st}
 }
 
 // ---------------------------------------------------------------- entry point
